@@ -6,6 +6,7 @@ Line-protocol driver for C19 (see go/props/c19/c19.go for the grammar).
 
   hr <o1,o2,…>                                   handleReq alone (hook), outcomes acc|closed|nonce|revert|funds|other|done|op
   seq <gasLimit> <gasPrice> <chainId> <call>…    real adaptor, each call = name/args/outcomes
+  cc <k> <n0>                                    k concurrent calls on one adaptor: the nonces the endpoint accepted
   sig <sighex>                                   Signature.ToBigInt
   pk <marshalled G2 hex>                         decodePubKey
   sel                                            selectors of the ten queue methods (model signature, Lean Keccak)
@@ -184,6 +185,12 @@ def step (line : String) : String :=
       let (x, y) := toBigInt b
       s!"ok {x} {y}"
     | none => "bad-op"
+  | ["cc", k, n0] =>
+    -- k concurrent callers, one endpoint that accepts everything: the queue serialises the requests, so the accepted
+    -- nonces are those of the sequential history (`accepted_nonces_consecutive`): n0, n0+1, …
+    match k.toNat?, n0.toNat? with
+    | some k, some n0 => s!"nonces={natsCsv ((List.range k).map (· + n0))} errs=0"
+    | _, _ => "bad-op"
   | "pk" :: s :: _ =>
     match ofHex s with
     | some b =>
